@@ -177,6 +177,7 @@ def run(ctx: common.Run):
     check_thermal(ctx, cirq, max(10, n // 3))
     check_measured_noisy_circuits(ctx, cirq, 25 if ctx.tier == 'quick' else 300)
     check_apply_channel_only(ctx, cirq)
+    check_entanglement_fidelity(ctx, cirq)
 
 
 def check_conversions(ctx, cirq, n):
@@ -714,6 +715,29 @@ def check_apply_channel_only(ctx, cirq):
         if bad:
             ctx.report_witness('kraus:apply-channel-only', f'for a channel defined by _apply_channel_ alone, {", ".join(bad)} do(es) not describe the action Σ K ρ K†',
                                {'lines': [{'kraus': [repr(np.round(k, 6).tolist()) for k in ks]}], 'impl_out': [bad], 'spec_out': ['Σ K ρ K†'], 'theorem_or_correspondence': 'kraus / superoperator coherence'})
+
+
+def check_entanglement_fidelity(ctx, cirq):
+    """cirq.entanglement_fidelity(channel) = <phi|(E x I)(|phi><phi|)|phi> for the maximally entangled state of the channel's own
+    dimension (computed here from the Kraus operators by plain linear algebra), for qubits and for qudits"""
+    rng = ctx.substream('entanglement-fidelity')
+    cases = [cirq.IdentityGate(qid_shape=(3,)), cirq.IdentityGate(qid_shape=(2, 3)), cirq.XPowGate(dimension=3), cirq.ZPowGate(dimension=4) ** 0.5, cirq.depolarize(0.1), cirq.amplitude_damp(0.3),
+             cirq.depolarize(0.2, n_qubits=2), cirq.ResetChannel(dimension=3), cirq.X, cirq.CZ ** 0.5, cirq.bit_flip(0.25)]
+    for _ in range(4 if ctx.tier == 'quick' else 40):
+        ch, _k = rand_channel(cirq, rng)
+        cases.append(ch)
+    for ch in cases:
+        ks = cirq.kraus(ch)
+        d = ks[0].shape[0]
+        phi = np.eye(d).reshape(-1) / np.sqrt(d)
+        out = sum(np.kron(k, np.eye(d)) @ np.outer(phi, phi.conj()) @ np.kron(k, np.eye(d)).conj().T for k in ks)
+        want = float(np.real(phi.conj() @ out @ phi))
+        got = cirq.entanglement_fidelity(ch)
+        ctx.count('check', 'entanglement-fidelity')
+        ctx.case(['entanglement-fidelity', repr(ch)], any(x != 2 for x in cirq.qid_shape(ch)))
+        if abs(got - want) > 1e-9:
+            ctx.report_witness('measure:entanglement-fidelity', 'cirq.entanglement_fidelity is not the overlap of the maximally entangled state with its image under the channel',
+                               {'lines': [{'channel': repr(ch), 'qid_shape': list(cirq.qid_shape(ch))}], 'impl_out': [got], 'spec_out': [want], 'theorem_or_correspondence': 'Kraus description (Σ |tr K|² / d²)'})
 
 
 def check_noisy_runs(ctx, cirq, n):
